@@ -111,7 +111,7 @@ def _line_tokenizer(repo):
     m = repo.mod(TOK)
     for f in m.top_funcs():
         loops = [n for n in walk_no_nested_funcs(f.node) if isinstance(n, ast.For)]
-        its = {ast.unparse(l.iter) for l in loops}
+        its = {n.id for l in loops for n in ast.walk(l.iter) if isinstance(n, ast.Name)}
         if {"LITERAL_TOKEN_PATTERNS", "REGEX_TOKEN_PATTERNS"} <= its:
             return m, f
     raise AnalysisError("tokenizer: the function looping over literal and regex patterns was not found")
@@ -120,9 +120,30 @@ def _line_tokenizer(repo):
 def toktie(repo):
     res = RuleResult("R-TOKTIE")
     m, f = _line_tokenizer(repo)
-    loops = {ast.unparse(n.iter): n for n in walk_no_nested_funcs(f.node) if isinstance(n, ast.For)}
+    loops = {}
+    for n in walk_no_nested_funcs(f.node):
+        if isinstance(n, ast.For):
+            for nm in ast.walk(n.iter):
+                if isinstance(nm, ast.Name) and nm.id in ("LITERAL_TOKEN_PATTERNS", "REGEX_TOKEN_PATTERNS"):
+                    loops[nm.id] = n
     lit, rx = loops["LITERAL_TOKEN_PATTERNS"], loops["REGEX_TOKEN_PATTERNS"]
-    res.instances = 3
+    res.instances = 5
+    # every pattern of both tables is a candidate at every offset: the loops iterate the whole table, sit directly
+    # in the scanning loop (not under a condition) and never stop early.
+    scan = [n for n in walk_no_nested_funcs(f.node) if isinstance(n, ast.While)]
+    direct = set(map(id, scan[0].body)) if scan else set()
+    for name, loop in (("literal", lit), ("regex", rx)):
+        if not isinstance(loop.iter, ast.Name):
+            res.add(f"{TOK}|{f.name}|{name}|every", f"the {name} loop iterates `{ast.unparse(loop.iter)}`, not the whole "
+                    "table: some patterns are not candidates at some offsets, so the result is not the longest match",
+                    TOK, loop.lineno, f.name)
+        elif scan and id(loop) not in direct:
+            res.add(f"{TOK}|{f.name}|{name}|every", f"the {name} loop is nested under a condition inside the scanning loop",
+                    TOK, loop.lineno, f.name)
+        for n in ast.walk(loop):
+            if isinstance(n, (ast.Break, ast.Return)):
+                res.add(f"{TOK}|{f.name}|{name}|early-exit", f"the {name} loop stops at line {n.lineno} before all patterns "
+                        "were compared", TOK, n.lineno, f.name)
     if not (lit.lineno < rx.lineno):
         res.add(f"{TOK}|{f.name}|order", "regex patterns are tried before literals: on equal length a keyword would be "
                 "classified as a word", TOK, rx.lineno, f.name)
